@@ -14,11 +14,11 @@ Emit(evs) == /\ out' = evs
              /\ LET res == TLCEval(FoldLeft(EmitStep, [o |-> obs, v |-> viol], evs)) IN obs' = res.o /\ viol' = res.v
 InitWith(c) == cfg = c /\ ent = TaskSeq(c) /\ nops = 0 /\ out = <<>> /\ obs = LblObsInit(c) /\ viol = {}
 Init == \E c \in Cfgs : InitWith(c)
-List == /\ Emit(<<[E0 EXCEPT !.e = "list", !.items = Expected(cfg, ent)]>>)
+List == /\ Emit(<<[E0 EXCEPT !.e = "list", !.items = ExpectedO(cfg, ent, obs.ad)]>>)
         /\ nops' = nops + 1 /\ UNCHANGED <<cfg, ent>>
 Fire(task, pos) ==
-  /\ task \in DOMAIN ent /\ cfg.tasks[task].own
-  /\ LET mine == SelectSeq(Expected(cfg, ent), LAMBDA x : x.task = task) IN
+  /\ task \in DOMAIN ent /\ (cfg.tasks[task].own \/ task \in obs.ad)
+  /\ LET mine == SelectSeq(ExpectedO(cfg, ent, obs.ad), LAMBDA x : x.task = task) IN
      /\ mine # <<>>
      /\ LET n == ((pos - 1) % Len(mine)) + 1
             s == mine[n]
@@ -35,8 +35,12 @@ Fire(task, pos) ==
            /\ Emit(<<[E0 EXCEPT !.e = "fire", !.task = task, !.k = s.k, !.t = s.t, !.a = s.a],
                      [E0 EXCEPT !.e = "kick", !.task = task, !.a = s.a]>>)
   /\ nops' = nops + 1 /\ UNCHANGED cfg
+(* a task of another broker is registered (same name, same entries) on the source's own broker *)
+Adopt(task) == /\ task \in DOMAIN ent /\ ~cfg.tasks[task].own /\ task \notin obs.ad
+               /\ Emit(<<[E0 EXCEPT !.e = "adopt", !.task = task]>>)
+               /\ nops' = nops + 1 /\ UNCHANGED <<cfg, ent>>
 Noop == Emit(<<[E0 EXCEPT !.e = "noop"]>>) /\ nops' = nops + 1 /\ UNCHANGED <<cfg, ent>>
-Next == nops < MaxOps /\ (List \/ \E task \in DOMAIN ent : \E pos \in 1..3 : Fire(task, pos))
+Next == nops < MaxOps /\ (List \/ \E task \in DOMAIN ent : (Adopt(task) \/ \E pos \in 1..3 : Fire(task, pos)))
 Spec == Init /\ [][Next]_vars
 NoViolation == viol \subseteq AllowedViol
 =============================================================================
